@@ -494,3 +494,22 @@ def warm_up(U: Universe, rng) -> list[str]:
     for n in made:
         n.detach()
     return order
+
+
+def remodelled_class(U: Universe, tag: str):
+    """One class name, two definitions in one module (a model factory called twice, a re-run notebook cell):
+    the first definition is used, then the class statement is executed again with two more child fields.
+    Returns (old class, new class, a leaf class)."""
+    P = getattr(U, "P", "U")
+    name = f"{P}Remodel{tag}"
+    src1 = f"@dataclass(frozen=True)\nclass {name}({P}Expr):\n    first: {P}Expr | None = None\n    v: int = 0\n"
+    src2 = src1 + f"    second: tuple[{P}Expr, ...] = ()\n    third: {P}Expr | None = None\n"
+    exec(compile(src1, f"<remodel {name} 1>", "exec", dont_inherit=True), U.module.__dict__)
+    old = U.module.__dict__[name]
+    leaf = U.cls[f"{P}Leaf"]
+    o = old(first=leaf(v=1), v=2)
+    list(o.dfs()), o.children, list(o.get_properties()), o.duplicate().detach(), o.to_tree()
+    o.detach()
+    exec(compile(src2, f"<remodel {name} 2>", "exec", dont_inherit=True), U.module.__dict__)
+    new = U.module.__dict__[name]
+    return old, new, leaf
